@@ -123,12 +123,17 @@ func c14Run(c *core.Ctx) {
 	for _, v := range []*version.Version{drive.V74, drive.V56} {
 		for _, nf := range nsm.NSForms {
 			var impSets [][]nsm.Import
-			for _, i := range nsm.Imports {
+			all := append(append([]nsm.Import{}, nsm.Imports...), nsm.ImportVariants...)
+			for _, i := range all {
 				impSets = append(impSets, []nsm.Import{i})
 			}
 			{
-				for i, a := range nsm.Imports {
-					for j, b := range nsm.Imports {
+				pairOf := nsm.Imports
+				if c.Thorough() {
+					pairOf = all // quick: pairs of the basic forms, the spelling variants alone
+				}
+				for i, a := range pairOf {
+					for j, b := range pairOf {
 						if i != j && a.Text != "" && b.Text != "" && !clash(a, b) {
 							impSets = append(impSets, []nsm.Import{a, b})
 						}
